@@ -3,8 +3,8 @@
    Model: Model/Grid.v (affine kernels) + Model/C01_Area.v (accessors), instantiated with the reals (RO).
    wf_area a  :=  1 <= width, 1 <= height, xmin <> xmax, ymin <> ymax   (flipped areas, ymin > ymax, are included). *)
 From Coq Require Import Reals ZArith List Lia Lra Bool PrimFloat.
-From PR Require Import Base.Num Base.RNum Base.F64 Model.Grid Model.C01_Area Gen.GenC01
-     Proofs.Grid_real Proofs.C01_grid Proofs.C01_index Proofs.C01_lonlat Proofs.C01_gen.
+From PR Require Import Base.Num Base.RNum Base.F64 Model.Grid Model.C01_Area Model.C01_Cache Gen.GenC01
+     Proofs.Grid_real Proofs.C01_grid Proofs.C01_index Proofs.C01_lonlat Proofs.C01_gen Proofs.C01_cache.
 Import ListNotations.
 Open Scope R_scope.
 
@@ -174,3 +174,48 @@ Theorem C01_lonlat_agreement_needs_H_same :
     c01_colrow2lonlat RO invP a 0 0 <> c01_get_lonlat RO invT a 0 0.
 Proof. exact c01_H_same_needed. Qed.
 Print Assumptions C01_lonlat_agreement_needs_H_same.
+
+(* HISTORIES of calls on one object.  State = the memoised self.lons/self.lats (None or a grid); ops = get_lonlats with any
+   data_slice / chunks / cache flag, get_lonlat(row, col), colrow2lonlat, in any order and number.  For every arithmetic and
+   every PROJ oracle, every observation of the history equals what a fresh object returns for the same call (induction over
+   the op list; invariant: the cache is empty or holds the lon/lats of the WHOLE grid) ... *)
+Theorem C01_history_stateless : forall (T : Type) (OP : ops T) (invT invP : T * T -> T * T) (a : area T) (ops : list c01_op),
+  (0 <= width a)%Z -> (0 <= height a)%Z -> Forall (c01_op_ok a) ops ->
+  c01_run OP invT invP a false None ops = map (c01_stateless OP invT invP a) ops.
+Proof. intros T OP invT invP a ops Hw Hh Hok. apply c01_history_stateless; try assumption. left; reflexivity. Qed.
+Print Assumptions C01_history_stateless.
+(* ... and over the reals that answer is the inverse projection of the canonical centres of the selected pixels *)
+Theorem C01_history_canonical : forall (invT invP : R * R -> R * R) (a : area R) (ops : list c01_op),
+  wf_area a -> Forall (c01_op_ok a) ops ->
+  c01_run RO invT invP a false None ops = map (c01_stateless RO invT invP a) ops /\
+  (forall sl ch cache, c01_sl_ok a sl -> c01_ch_ok a ch ->
+     c01_stateless RO invT invP a (OpLonlats sl ch cache) =
+     map (map invT) (c01_canon_grid a (fst (c01_sel a sl)) (snd (c01_sel a sl)))) /\
+  (forall r c, (0 <= r < height a)%Z -> (0 <= c < width a)%Z ->
+     c01_stateless RO invT invP a (OpGetLonlat r c) = [[invT (xmin a + (IZR c + /2) * dxR a, ymax a - (IZR r + /2) * dyR a)]]).
+Proof.
+  intros invT invP a ops (Hw & Hh & _) Hok.
+  assert (Hw0 : (0 <= width a)%Z) by lia. assert (Hh0 : (0 <= height a)%Z) by lia.
+  split; [apply c01_history_stateless; try assumption; left; reflexivity|]. split.
+  - intros sl ch cache Hs Hc. rewrite c01_stateless_lonlats by assumption. unfold c01_ll_fn. now rewrite c01_grid_fn_canon.
+  - intros r c Hr Hc. rewrite c01_stateless_get_lonlat by assumption. unfold c01_get_lonlat.
+    now rewrite proj_x_canonical, proj_y_canonical.
+Qed.
+Print Assumptions C01_history_canonical.
+Example C01_history_ex :
+  let a := mk_area 0 0 4 2 4%Z 2%Z in
+  Forall (c01_op_ok a) [OpLonlats (Some ([1], [0; 2])%Z) None true; OpLonlats None None true; OpGetLonlat 1 3;
+                        OpLonlats (Some ([0], [3])%Z) (Some ([1; 1], [3; 1])%Z) false; OpColrow 3 1].
+Proof. cbn. repeat constructor; cbn; try lia. Qed.
+
+(* the variant that stores a sliced result (`if cache:` instead of `if cache and data_slice is None:`) is refuted:
+   after get_lonlats(data_slice=([1],[0]), cache=True) on a 2x2 area, get_lonlats() returns 1 row instead of 2 *)
+Theorem C01_history_store_sliced_refuted :
+  let a := mk_area 0%float 0%float 2%float 2%float 2 2 in
+  let ops := [OpLonlats (Some ([1], [0])%Z) None true; OpLonlats None None false] in
+  Forall (c01_op_ok a) ops /\
+  c01_run F64 (fun p => p) (fun p => p) a true None ops <> map (c01_stateless F64 (fun p => p) (fun p => p) a) ops /\
+  length (nth 1 (c01_run F64 (fun p => p) (fun p => p) a true None ops) []) = 1%nat /\
+  length (nth 1 (map (c01_stateless F64 (fun p => p) (fun p => p) a) ops) []) = 2%nat.
+Proof. exact c01_store_sliced_refuted. Qed.
+Print Assumptions C01_history_store_sliced_refuted.
